@@ -10,34 +10,26 @@ import LithiumModel.Testcase
 
 namespace Lines
 
-/-- length of the line terminator starting at the head of the input, `0` if there is none -/
-def termLen : Bytes → Nat
-  | 0x0D :: 0x0A :: _ => 2
-  | 0x0A :: _ => 1
-  | 0x0D :: _ => 1
-  | 0x0B :: _ => 1
-  | 0x0C :: _ => 1
-  | 0x1C :: _ => 1
-  | 0x1D :: _ => 1
-  | 0x1E :: _ => 1
-  | 0xC2 :: 0x85 :: _ => 2
-  | 0xE2 :: 0x80 :: 0xA8 :: _ => 3
-  | 0xE2 :: 0x80 :: 0xA9 :: _ => 3
-  | _ => 0
+/-- does a line end right after byte `b`, given the bytes `cur` of the line so far and the
+rest of the input?  (CR needs one byte of look-ahead, the multi-byte terminators look back.) -/
+def endsLine (cur : Bytes) (b : UInt8) (rest : Bytes) : Bool :=
+  if b == 0x0A || b == 0x0B || b == 0x0C || b == 0x1C || b == 0x1D || b == 0x1E then true
+  else if b == 0x0D then
+    match rest with
+    | 0x0A :: _ => false     -- CR LF is one terminator, it ends after the LF
+    | _ => true
+  else if b == 0x85 then cur.getLast? == some 0xC2
+  else if b == 0xA8 || b == 0xA9 then
+    cur.getLast? == some 0x80 && cur.dropLast.getLast? == some 0xE2
+  else false
 
-/-- `cur` is the line being accumulated; `skip` is the number of bytes of a multi-byte
-terminator still to be consumed (the byte that brings it to 0 ends the line). -/
-def splitAux : Bytes → Nat → Bytes → List Bytes
-  | cur, _, [] => if cur.isEmpty then [] else [cur]
-  | cur, skip + 1, b :: rest =>
-    if skip = 0 then (cur ++ [b]) :: splitAux [] 0 rest
-    else splitAux (cur ++ [b]) skip rest
-  | cur, 0, b :: rest =>
-    match termLen (b :: rest) with
-    | 0 => splitAux (cur ++ [b]) 0 rest
-    | 1 => (cur ++ [b]) :: splitAux [] 0 rest
-    | k + 2 => splitAux (cur ++ [b]) (k + 1) rest
+/-- `cur` is the line being accumulated -/
+def splitAux : Bytes → Bytes → List Bytes
+  | cur, [] => if cur.isEmpty then [] else [cur]
+  | cur, b :: rest =>
+    if endsLine cur b rest then (cur ++ [b]) :: splitAux [] rest
+    else splitAux (cur ++ [b]) rest
 
-def splitLines (d : Bytes) : List Bytes := splitAux [] 0 d
+def splitLines (d : Bytes) : List Bytes := splitAux [] d
 
 end Lines
